@@ -5,6 +5,7 @@ from engine.preds import canon, Walker
 from .common import *
 from . import shared
 from .c04 import api_roots
+from . import c04
 
 CONFIGS = ['default', 'full']
 TECHNIQUE = 'dominance (verbose guard on every write, interprocedural through helper printers), who-may-call of stdout/print, sibling agreement of the PrintTarget arms, path rule save_scalars->print_status, format-argument provenance'
@@ -17,7 +18,9 @@ EXPLANATION = (
     "covers all five variants; (R4) every save_scalars is followed by print_status before the next save_scalars or "
     "post_process, print_status formats info.iterations, the footer follows post_process and formats info.status, and the status is final before it is copied into the solution; "
     "(R5) the configuration header formats data.n, data.m, nnz(data.P), nnz(data.A), cones.len(), "
-    "presolver.count_reduced() next to their labels.")
+    "presolver.count_reduced() next to their labels."
+    " (R6) cone-size list of the header: the closing entry is the last cone of the type, entries are numel() of the cones with the matching tag; (R7) the solution copies iterations and residuals from the info on every path (C03.R1 re-run)."
+    " (R8) the 'removed N constraints' figure: bookkeeping of the presolve reduction map (C09.R2 re-run).")
 ASSUMPTIONS = ['rustc MIR construction and trait resolution are correct',
                'std::io::Write::write_fmt writes exactly the formatted bytes through Write::write (write_all loop)']
 
@@ -499,6 +502,45 @@ def cone_tags(rep, F, tag):
     R.guard(body)
 
 
+def cone_dims_list(rep, F, tag):
+    """"the configuration header reports the true problem dimensions": in the per-type list of cone sizes the entry that closes the
+    list is the size of the last cone of that type (the only one shown after the ellipsis), a single cone prints entry 0, and
+    the entries are the numel() of the cones whose tag matches."""
+    R = rep.rule('C20.R6', 'cone-size list of the header: the closing entry is the last cone of the type, entries are numel() of the matching cones')
+
+    def body():
+        f = F.one(name='_print_conedims_by_type')
+        fs = fmt_sources(f)
+        norm = lambda x: x.replace('withoverflow', '').replace(').0', ')')
+        closers = [x for x in fs if ')' in x[0]]
+        R.check(len(closers) >= 1, 'closers' + tag, 'no list-closing format piece found in _print_conedims_by_type', f.loc())
+        for x in closers:
+            a = [norm(y) for y in x[1]]
+            ok = len(a) == 1 and (re.fullmatch(r'index\((.+), sub\(len\((.+)\), 1_usize\)\)', a[0]) is not None or re.fullmatch(r'(unwrap|expect)\(last\(.+\).*\)', a[0]) is not None)
+            if ok:
+                m = re.fullmatch(r'index\((.+), sub\(len\((.+)\), 1_usize\)\)', a[0])
+                ok = m is None or m.group(1) == m.group(2)
+            R.check(ok, 'closing-entry|%s%s' % ('ellipsis' if '...' in x[0] else 'full', tag),
+                    'the entry that closes the cone-size list formats %s: it must be the last element of the size vector (after "..." it is the only '
+                    'trace of the remaining cones)' % a, f.loc(x[2].sp))
+        single = [x for x in fs if 'numel = ' in x[0] and '(' not in x[0]]
+        R.check(len(single) == 1 and len(single[0][1]) == 1 and re.fullmatch(r'index\(.+, 0_usize\)', norm(single[0][1][0])) is not None, 'single-entry' + tag,
+                'the single-cone form formats %s' % [x[1] for x in single], f.loc())
+        # the vector holds numel() of the cones with the requested tag
+        pushes = [c for c in f.calls if c.callee.name == 'push']
+        R.check(len(pushes) == 1, 'push-site' + tag, '%d pushes into the size vector' % len(pushes), f.loc())
+        for val, ret, ev, tr in Walker(f, cut_loops=True).leaves():
+            for e in ev:
+                if e[0] == 'call' and e[1] == 'push':
+                    v = split_args(e[2])[-1]
+                    R.check(re.fullmatch(r'numel\(.+@Some\.0\)', v) is not None, 'pushed-value' + tag, 'the size vector receives %s, expected numel() of the cone' % v, f.loc())
+                    ks = [k for k in val if k.startswith(('eq(', 'ne(')) and 'as_tag(' in k and 'arg3' in k]
+                    R.check(len(ks) == 1 and ((ks[0].startswith('eq(') and val[ks[0]] == 1) or (ks[0].startswith('ne(') and val[ks[0]] == 0)), 'pushed-tag' + tag,
+                            'a size is pushed on a path where the cone tag test is %s' % {k: val[k] for k in ks}, f.loc())
+
+    R.guard(body)
+
+
 def run(ctx, rep, tier):
     for cfg in CONFIGS:
         F = ctx.facts(cfg)
@@ -510,6 +552,12 @@ def run(ctx, rep, tier):
         table_and_header(rep, F, tag)
         cone_tags(rep, F, tag)
         settings_header(rep, F, tag)
+        cone_dims_list(rep, F, tag)
+        # 'presolve: removed N constraints' is mfull - mreduced: the bookkeeping of the reduction map (C09.R2 re-run)
+        from . import c09
+        c09.drop_condition(c04._Ren(rep, 'C09.R2', 'C20.R8'), F, tag)
+        # the last table line and the footer agree with the returned solution only if the solution copies the info figures on every path (C03.R1 re-run)
+        shared.report_provenance(c04._Ren(rep, 'C03.R1', 'C20.R7'), F, ctx.eff(cfg), tag, 'C03.R1')
     if tier == 'thorough':
         from . import witness
         witness.run(rep, 'C20.W', ['private_stream'])
